@@ -181,7 +181,7 @@ def exec_transform(job):
                 data = {"x": 1, "y": -2, "z": 1024, "qw": 1, "qx": 0, "qy": 0, "qz": 0}
                 expected = np.eye(4)
                 expected[:3, 3] = [1.0, -2.0, 1024.0]
-            path = os.path.join(d, "t.json")
+            path = os.path.join(d, core.name_form("t", ".json", n // 3))
             if n % 2:           # the keys of a JSON object have no order
                 data = dict(sorted(data.items(), reverse=bool(n % 4 == 1)))
             json.dump(data, open(path, "w"))
@@ -191,9 +191,10 @@ def exec_transform(job):
                 expected[:3, 3] = [1.5, -2.25, 1024.0]
         else:
             expected = _transform_matrix(cls)
-            path = os.path.join(d, "t.npy" if enc == "npy" else "t.txt")
+            path = os.path.join(d, core.name_form("t", ".npy" if enc == "npy" else ".txt", n // 3))
             if enc == "npy":
-                np.save(path, expected)
+                with open(path, "wb") as fh:        # np.save(<name>) would append ".npy" to other names
+                    np.save(fh, expected)
             else:
                 np.savetxt(path, expected)
         try:
@@ -409,7 +410,7 @@ def exec_roundtrip(job):
                     res.add_trajectory("a_longer_first", longer)
                     res.add_trajectory("est", traj)
                     res.add_trajectory("z_path", PosePath3D(poses_se3=[np.eye(4)]))
-                path = os.path.join(d, "r.zip")
+                path = os.path.join(d, core.name_form("r", ".zip", n // 2))
                 if c["src"] == "handle":
                     with open(path, "wb") as fh:
                         fi.save_res_file(fh, res)
